@@ -293,7 +293,7 @@ Definition leaf_eqb (a b : leaf) : bool :=
 
 Definition cluster_eqb (a b : cluster) : bool :=
   (c_id a =? c_id b) && list_eqb leaf_eqb (c_attrs a) (c_attrs b)
-  && list_eqb leaf_eqb (c_cmds a) (c_cmds b).
+  && list_eqb leaf_eqb (c_cmds a) (c_cmds b) && list_eqb leaf_eqb (c_events a) (c_events b).
 
 Definition endpoint_eqb (a b : endpoint) : bool :=
   (ep_id a =? ep_id b) && list_eqb N.eqb (ep_dts a) (ep_dts b)
